@@ -458,6 +458,13 @@ func (fr *Frame) doUnOp(x *ssa.UnOp) {
 			fr.set(x, vc.freshVal(x.Name(), x.Type(), fr.heap))
 		}
 	case token.ARROW:
+		// a channel receive may block: contracts address it as the call site "chanrecv" (site clauses, calls(chanrecv))
+		if fr.contract != nil {
+			fr.callOrd["chanrecv"]++
+			fr.curQual = "chanrecv"
+			fr.countCall("chanrecv")
+			fr.siteClauses("chanrecv", fr.callOrd["chanrecv"], "before", []Val{a}, nil, Val{}, x.Pos())
+		}
 		fr.set(x, vc.freshVal(x.Name(), x.Type(), fr.heap))
 	default:
 		fr.set(x, vc.freshVal(x.Name(), x.Type(), fr.heap))
